@@ -24,6 +24,38 @@ import numpy as np
 GROUPS = ["photon_collection", "charge_generation"]
 BYSTANDER = 7.0
 
+# Every processor the driver builds (and every run of calib2) gets its own TOKEN in the `tag` argument of the probe
+# models ("m0@17"): a pipeline run started lazily by an EARLIER payload or run (the load of /simulated stops at its
+# first error, the other islands' tasks may still be running in dask's threads) is then never mistaken for a run of
+# the current one.
+TOKEN = [0]
+
+
+def new_token():
+    TOKEN[0] += 1
+    return TOKEN[0]
+
+
+def tag_of(m, tok):
+    return f"m{m}@{tok}"
+
+
+def set_token(processor, tok):
+    for m, g in enumerate(GROUPS):
+        getattr(processor.pipeline, g).models[0].arguments["tag"] = tag_of(m, tok)
+
+
+def untag(rec, tok=None):
+    """{"m0@17.p0": ...} -> {"m0.p0": ...}; with tok: only the records of that token (None if it is another's)"""
+    out = {}
+    for k, v in rec.items():
+        head, _, arg = k.partition(".")
+        name, _, t = head.partition("@")
+        if tok is not None and t != str(tok):
+            return None
+        out[f"{name}.{arg}"] = v
+    return out
+
 
 def _f(h):
     return float.fromhex(h)
@@ -94,7 +126,8 @@ def yaml_objects(p):
     from pyxel.configuration import loads
     from pyxel.pipelines import Processor
 
-    args = [dict(tag="m0", fixed=BYSTANDER), dict(tag="m1", fixed=BYSTANDER)]
+    tok = new_token()
+    args = [dict(tag=tag_of(0, tok), fixed=BYSTANDER), dict(tag=tag_of(1, tok), fixed=BYSTANDER)]
     for v in p["vars"]:
         args[v["model"]][v["arg"]] = 0.0 if spec_n(v) is None else [0.0] * v["n"]
     params = []
@@ -134,9 +167,10 @@ def make_objects(p):
     for v in p["vars"]:
         args[v["model"]][v["arg"]] = 0.0 if spec_n(v) is None else [0.0] * v["n"]
     kw = {}
+    tok = new_token()
     for m, g in enumerate(GROUPS):
         kw[g] = [ModelFunction(func="verif_probes_c10.capture", name=f"cap{m}",
-                               arguments=dict(tag=f"m{m}", **args[m]))]
+                               arguments=dict(tag=tag_of(m, tok), **args[m]))]
     det = CCD(geometry=CCDGeometry(row=2, col=2, total_thickness=40.0, pixel_vert_size=10.0, pixel_horz_size=10.0),
               environment=Environment(temperature=200.0),
               characteristics=Characteristics(full_well_capacity=100000))
@@ -197,7 +231,7 @@ def ordered(p, rec):
 def merged(sink):
     rec = {}
     for r in sink:
-        rec.update(r)
+        rec.update(untag(r))
     return rec
 
 
@@ -342,7 +376,9 @@ def final_runs(final):
     """Pipeline runs outside fitness: per thread the records come as (model 0, model 1) of one run."""
     by_thread = {}
     for tid, rec in final or []:
-        by_thread.setdefault(tid, []).append(rec)
+        rec = untag(rec, TOKEN[0])
+        if rec is not None:           # else: a straggler of an earlier payload / run
+            by_thread.setdefault(tid, []).append(rec)
     runs = []
     for recs in by_thread.values():
         cur = {}
@@ -468,6 +504,8 @@ def hist(p):
     problems, steps = [], []
     for op in p["ops"]:
         kind = op[0]
+        if kind != "build" and op[1] >= len(problems):
+            continue              # the problem it names was refused: nothing to call
         st = dict(op=kind)
         if kind == "build":
             try:
@@ -580,6 +618,7 @@ def calib2(p):
                 calibration.pygmo_seed = int(r.get("seed", 1))
             del log[:]
             n_before = len(built)
+            set_token(processor, new_token())
             st = dict(op="build")
             dt, err, load_err = None, None, None
             pr.GLOBAL = []
